@@ -295,6 +295,37 @@ func (p *cparser) primary() *CExpr {
 			p.expect(")")
 			return e
 		}
+		if t.s == "@" {
+			// ghost call of another function's contract: @Name(args) or @pkg.Recv.Name(args)
+			name := ""
+			for {
+				id := p.next()
+				if id.k != "id" {
+					panic(fmt.Sprintf("expected identifier after @ at %d in %q", id.pos, p.src))
+				}
+				name += id.s
+				if p.isOp(".") {
+					p.next()
+					name += "."
+					continue
+				}
+				if p.isOp("*") || p.isOp("/") {
+					name += p.next().s
+					continue
+				}
+				break
+			}
+			p.expect("(")
+			var args []*CExpr
+			for !p.isOp(")") {
+				args = append(args, p.expr())
+				if p.isOp(",") {
+					p.next()
+				}
+			}
+			p.expect(")")
+			return &CExpr{Op: "ghostcall", Tok: name, Args: args, Pos: t.pos}
+		}
 	}
 	panic(fmt.Sprintf("unexpected token %q at %d in %q", t.s, t.pos, p.src))
 }
@@ -322,6 +353,12 @@ func (e *CExpr) String() string {
 		return e.Args[0].String() + "[" + e.Args[1].String() + ":" + e.Args[2].String() + "]"
 	case "field":
 		return e.Args[0].String() + "." + e.Tok
+	case "ghostcall":
+		var a []string
+		for _, x := range e.Args {
+			a = append(a, x.String())
+		}
+		return "@" + e.Tok + "(" + strings.Join(a, ", ") + ")"
 	case "forall", "exists":
 		return e.Op + " " + e.Var + " " + e.VTyp + " :: " + e.Args[0].String()
 	}
